@@ -172,3 +172,35 @@ Print Assumptions C20_confined_remove.
 Print Assumptions C20_copy_then_remove_through_one_handle.
 Print Assumptions C20_successful_move_is_identical.
 Print Assumptions C20_copy_then_move_through_one_handle.
+
+(* ---- names that denote other files (U20L): the destination directory already holds a symbolic link under a listed
+   name.  Since /repo 966caf3 the copy removes the name and creates it exclusively; the theorems are about that
+   arrangement, and the earlier one (os.Create follows the link) is refuted by the r14 finding's own example. ---- *)
+Require U20L.
+(* whether the run of copies succeeds or fails half way, whatever links the destination held: no name outside the
+   destination directory changes - not the file it is, not the link it is *)
+Theorem C20_copy_does_not_write_through_links : forall fuel dir dest names f e,
+  str_eqb (fst e) dest = false -> U20L.lget e (fst (U20L.copies fuel dir dest names f)) = U20L.lget e f.
+Proof. exact U20L.copies_stay_in_the_destination. Qed.
+(* one copy: every name keeps its node but the destination name, which is a file holding the source's bytes *)
+Theorem C20_copy_replaces_the_name : forall fuel src dst f f' c,
+  U20L.same_file fuel src dst f = false -> U20L.read fuel src f = Some c -> U20L.copy_replace fuel src dst f = Some f' ->
+  forall e, U20L.lget e f' = if entry_eqb e dst then Some (U20L.File c) else U20L.lget e f.
+Proof. exact U20L.copy_replace_is_fs_put. Qed.
+Theorem C20_copy_delivers_what_the_source_denotes : forall fuel src dst f f' c,
+  U20L.copy_replace fuel src dst f = Some f' -> U20L.read fuel src f = Some c -> U20L.read fuel dst f' = Some c.
+Proof. exact U20L.copy_replace_delivers. Qed.
+(* without links this is U20's fs_put - the file system the theorems above this section are about *)
+Theorem C20_link_free_copy_is_fs_put : forall fuel src dst f c, entry_eqb src dst = false -> fs_get src f = Some c ->
+  U20L.copy_replace fuel src dst (U20L.erase f) = Some (U20L.erase (fs_put dst c f)) /\
+  U20L.copy_through fuel src dst (U20L.erase f) = Some (U20L.erase (fs_put dst c f)).
+Proof. exact U20L.link_free_copy. Qed.
+Example C20_written_through_before_the_repair : exists f',
+  U20L.copy_through 40 (GS.s "upload", GS.s "foo_1.0.tar.gz") (GS.s "incoming", GS.s "foo_1.0.tar.gz") U20L.ex_fs = Some f' /\
+  U20L.lget (GS.s "outside", GS.s "precious") f' = Some (U20L.File (GS.s "payload")) /\
+  U20L.lget (GS.s "outside", GS.s "precious") U20L.ex_fs = Some (U20L.File (GS.s "precious bytes")).
+Proof. exact U20L.copy_through_refuted. Qed.
+Print Assumptions C20_copy_does_not_write_through_links.
+Print Assumptions C20_copy_replaces_the_name.
+Print Assumptions C20_copy_delivers_what_the_source_denotes.
+Print Assumptions C20_link_free_copy_is_fs_put.
